@@ -284,7 +284,8 @@ class Exec:
         self.nq = 0; self.solver_s = 0.0; self.aux = None; self.nq_aux = 0
         self.defer = False; self.deferred = []; self.nodefer_sites = set(); self.n_deferred = 0
         self.pc = [[]]; self._vars = {}; self._local_cache = {}; self._keep = []; self.nq_cached = 0
-        self.sq_abstract = False; self.n_sq = 0
+        self.sq_abstract = False; self.n_sq = 0; self.abstract_rem = False; self.n_rem = 0
+        self.use_intervals = False; self.bounds = {}; self._iv = {}
         self.paths = 0; self.steps = 0
         self.panics = []                      # (kind, msg, site, model_inputs, extra)
         self.inputs = []                      # (name, z3 var)
@@ -444,6 +445,59 @@ class Exec:
         for i in range(0, len(items), batch):
             go([x for x in items[i:i + batch] if x[1] not in failing])
         return failing
+
+    def interval(self, v):
+        """unsigned value range [lo, hi] of a scalar (python ints), from self.bounds (variables) by structural recursion"""
+        if v.conc:
+            x = int(v.t) & ((1 << WIDTH.get(v.ty, 64)) - 1)
+            return (x, x)
+        return self._interval(v.t)
+
+    def _interval(self, t):
+        k = t.get_id()
+        r = self._iv.get(k)
+        if r is not None:
+            return r
+        w = t.size() if z3.is_bv(t) else 1
+        full = (0, (1 << w) - 1)
+        r = full
+        if z3.is_bv_value(t):
+            r = (t.as_long(), t.as_long())
+        elif z3.is_const(t) and t.decl().kind() == z3.Z3_OP_UNINTERPRETED:
+            r = self.bounds.get(t.decl().name(), full)
+        else:
+            kind = t.decl().kind()
+            ch = t.children()
+            if kind == z3.Z3_OP_BADD:
+                lo = sum(self._interval(c)[0] for c in ch); hi = sum(self._interval(c)[1] for c in ch)
+                r = (lo, hi) if hi <= full[1] else full
+            elif kind == z3.Z3_OP_BSUB and len(ch) == 2:
+                (la, ha), (lb, hb) = self._interval(ch[0]), self._interval(ch[1])
+                r = (la - hb, ha - lb) if la - hb >= 0 else full
+            elif kind == z3.Z3_OP_BMUL:
+                lo = hi = 1
+                for c in ch:
+                    a, b = self._interval(c); lo *= a; hi *= b
+                r = (lo, hi) if hi <= full[1] else full
+            elif kind == z3.Z3_OP_ZERO_EXT:
+                r = self._interval(ch[0])
+            elif kind == z3.Z3_OP_CONCAT and z3.is_bv_value(ch[0]) and ch[0].as_long() == 0 and len(ch) == 2:
+                r = self._interval(ch[1])
+            elif kind == z3.Z3_OP_ITE:
+                a, b = self._interval(ch[1]), self._interval(ch[2]); r = (min(a[0], b[0]), max(a[1], b[1]))
+            elif kind in (z3.Z3_OP_BUREM, z3.Z3_OP_BUREM_I) and z3.is_bv_value(ch[1]) and ch[1].as_long() > 0:
+                r = (0, min(ch[1].as_long() - 1, self._interval(ch[0])[1]))
+            elif kind == z3.Z3_OP_EXTRACT:
+                hi_, lo_ = t.params()
+                a = self._interval(ch[0])
+                if lo_ == 0 and a[1] < (1 << (hi_ + 1)): r = a
+            elif kind == z3.Z3_OP_BAND and len(ch) == 2:
+                r = (0, min(self._interval(ch[0])[1], self._interval(ch[1])[1]))
+            elif kind == z3.Z3_OP_BLSHR and z3.is_bv_value(ch[1]):
+                a = self._interval(ch[0]); sft = ch[1].as_long(); r = (a[0] >> sft, a[1] >> sft)
+        self._iv[k] = r
+        self._keep.append(t)
+        return r
 
     def abstract_square(self, st, a):
         """x*x for a symbolic x is replaced by a fresh variable sq with 0 <= sq <= 2^(2k), where 2^k bounds |x| on this
@@ -761,7 +815,7 @@ class Exec:
         if c in fr.env:
             v = fr.env[c]
             return mkint(v, 'usize') if isinstance(v, int) else v
-        m = re.fullmatch(r'(\w+)::(MIN|MAX|BITS)', c)
+        m = re.fullmatch(r'(?:(?:core|std)::num::<impl )?(\w+)>?::(MIN|MAX|BITS)', c)
         if m and m.group(1) in WIDTH:
             ty = m.group(1); w = WIDTH[ty]
             if m.group(2) == 'BITS': return mkint(w, 'u32')
@@ -770,6 +824,7 @@ class Exec:
         if c in ('std::f64::consts::LN_2',): return V(0.6931471805599453, 'f64')
         if c in ('std::f64::consts::PI',): return V(3.141592653589793, 'f64')
         if re.fullmatch(r'Option::<.*>::None', c): return NONE
+        if c in ('RangeFull', 'std::ops::RangeFull', 'core::ops::RangeFull'): return Agg('RangeFull', None, ())
         # named const / static / promoted
         return self.named_const(st, fr, c)
 
@@ -829,11 +884,27 @@ class Exec:
             name = m.group(1); inner = r[m.end():-1]
             if name in self.BIN:
                 a, b = [self.operand(st, fr, x) for x in split_top(inner)]
+                if self.abstract_rem and name == 'Rem' and b.conc and not a.conc and not signed(a.ty) and a.ty in WIDTH:
+                    # cut point: x % m is replaced by a fresh residue in [0, m) - sound for panic-freedom obligations, keeps them local
+                    self.n_rem += 1
+                    r = z3.BitVec('rem_%d' % self.n_rem, WIDTH[a.ty])
+                    self.assume(z3.ULT(r, z3.BitVecVal(b.t, WIDTH[a.ty])))
+                    self.bounds['rem_%d' % self.n_rem] = (0, b.t - 1)
+                    return V(r, a.ty)
                 return binop(name, a, b)
             if name.endswith('WithOverflow'):
                 a, b = [self.operand(st, fr, x) for x in split_top(inner)]
                 if self.sq_abstract and name == 'MulWithOverflow' and not a.conc and not b.conc and a.t.eq(b.t):
                     return self.abstract_square(st, a)
+                if self.use_intervals and not (a.conc and b.conc) and not signed(a.ty):
+                    # unsigned interval arithmetic over the term DAG (exact for sums of independent bounded variables): when the result
+                    # provably fits, the overflow flag is the constant false and no solver query is needed
+                    (la, ha), (lb, hb) = self.interval(a), self.interval(b)
+                    w = WIDTH[a.ty]
+                    op = name[:3]
+                    fits = (op == 'Add' and ha + hb < (1 << w)) or (op == 'Sub' and la - hb >= 0) or (op == 'Mul' and ha * hb < (1 << w))
+                    if fits:
+                        return Tup(binop(op, a, b), mkbool(False))
                 return ovf_op(name[:3], a, b)
             if name in ('Not', 'Neg'):
                 return unop(name, self.operand(st, fr, inner))
@@ -1096,12 +1167,33 @@ class Exec:
     def run_sync_frame(self, st):
         """run until the top frame (marked sync) returns; forks are not allowed inside"""
         base = len(st.stack) - 1
-        while True:
-            r = self.step(st, sync_base=base)
-            if r is not None:
-                if r[0] == 'sync_return':
-                    return r[1]
-                raise Unsupported('symbolic fork inside a synchronous (closure / const) call: %s' % st.stack[-1].fn.name)
+        try:
+            while True:
+                r = self.step(st, sync_base=base)
+                if r is not None:
+                    if r[0] == 'sync_return':
+                        return r[1]
+                    if r[0] != 'fork':
+                        raise Unsupported('unexpected step result inside a synchronous call: %r' % (r[0],))
+                    # a symbolic branch inside a closure called from a library summary: if only one arm is feasible take it;
+                    # otherwise abandon this execution of the summary and let the OUTER path fork on the arm's condition - the
+                    # summary is then re-executed on each side with the branch decided
+                    feas = []
+                    for c, bb in r[1]:
+                        if z3.is_false(c):
+                            continue
+                        if self.check(c)[0]:
+                            feas.append((c, bb))
+                    if len(feas) == 1 and feas[0][1] is not None:
+                        st.stack[-1].jump(feas[0][1]); continue
+                    if len(feas) == 1:
+                        self.assume(feas[0][0]); continue
+                    if not feas:
+                        raise Unsupported('no feasible arm inside a synchronous call')
+                    raise ForkBool(feas[0][0])
+        except BaseException:
+            del st.stack[base:]            # the summary will be re-executed (or the path ends): drop its frames
+            raise
 
     # ---------------------------------------------------------------- stepping
     def step(self, st, sync_base=None):
